@@ -79,7 +79,7 @@ def gen_x(rng, kind, n, nk, lo, hi):
 SCALES = [1e-15, 1e-12, 1e-9, 1e-6, 1e6, 1e12, 1e-300]
 
 
-def gen_range(rng, allow_denormal=False):
+def gen_range(rng, allow_denormal=False, nk=10):
     """(lo, hi).  Besides ordinary ranges: SCALE families (whole axis multiplied by 1e-15 .. 1e12, 1e-300, and -- only for the
     bit-exact correspondence -- a denormal-adjacent 1e-310) and OFFSET families (x + 1e6, x + 1e12 with a spacing that is still
     well representable), so that nothing in the kernels can depend on the absolute size of x or of the knot spacing."""
@@ -104,6 +104,9 @@ def gen_range(rng, allow_denormal=False):
     else:
         off = float(rng.choice([1e6, -1e6, 1e12, -1e12]))
         width = float(rng.uniform(1.0, 500.0)) if abs(off) > 1e9 else float(rng.uniform(1e-3, 500.0))
+        if rng.random() < 0.5:
+            # knot spacing only 8 .. 4096 ulps of the offset: tiny RELATIVE to the knot values, still strictly increasing
+            width = (nk - 1) * float(np.spacing(abs(off))) * float(2 ** int(rng.integers(3, 13)))
         lo = off + float(rng.uniform(0, 10))
         lo, hi = lo, lo + width
     if not hi > lo:
@@ -122,7 +125,7 @@ def gen_config(rng, c, small=True, allow_denormal=False):
         nk = int(rng.integers(12, 60))
     else:
         nk = int(rng.integers(60, 201))
-    lo, hi = gen_range(rng, allow_denormal)
+    lo, hi = gen_range(rng, allow_denormal, nk)
     kind = X_KINDS[(c // 7) % len(X_KINDS)]
     nmax = max(2, min(40, 400 // (k + 1))) if small else 400
     if nk > 60 and small:
@@ -158,7 +161,13 @@ def gen_raw_knots(rng, c):
     x = np.where(rng.random(n) < 0.5, pick, x)
     x[0] = inner[-1] if rng.random() < 0.5 else x[0]
     sc = float(rng.choice([1.0, 1.0, 1e-14, 1e-12, 1e-9, 1e-6, 1e6, 1e12, 1e-300]))
-    return k, x * sc, knots * sc
+    x, knots = x * sc, knots * sc
+    if rng.random() < 0.25:
+        # offset so large that the spacing is down to ~100 ulps of the knot values (adding a constant keeps the order,
+        # keeps equal knots equal, and keeps x inside [t_k, t_nb] because rounding is monotone)
+        off = float(rng.choice([1e6, 1e10, 1e13])) * max(float(np.max(np.abs(knots))), 1e-300)
+        x, knots = x + off, knots + off
+    return k, x, knots
 
 
 # ------------------------------------------------------------------------------ correspondence
@@ -574,7 +583,7 @@ def oracle(ctx, budget):
         diff_order = int(rng.integers(1, min(4, nbs - 1) + 1)) if nbs > 1 else 1
         if diff_order >= nbs:
             continue
-        lo, hi = gen_range(rng)
+        lo, hi = gen_range(rng, False, nk)
         kind = X_KINDS[c % len(X_KINDS)]
         n = int(rng.integers(2, 60)) if c % 3 else int(rng.integers(2, max(3, nbs)))   # also N < number of bases
         x = np.sort(gen_x(rng, kind, n, nk, lo, hi))
